@@ -67,10 +67,10 @@ IMAGES = [
     # ea_inodes, inline directories, journal
     dict(spec=dict(name="c11_sink", kb=16384,
                    args="-t ext4 -b 1024 -I 256 -O inline_data,ea_inode -J size=1", tree="wide",
-                   extras=["xattrs", "bigxattr", "deepfile"]), index=True),
+                   extras=["xattrs", "bigxattr", "deepfile"]), index=True, many=700),
     dict(spec=dict(name="c11_wide_nocsum", kb=16384,
                    args="-t ext4 -b 1024 -O ^metadata_csum,^uninit_bg -J size=1", tree="wide",
-                   extras=["xattrs"]), index=True),
+                   extras=["xattrs"]), index=True, many=700),
     # inode size growth needs ^flex_bg
     dict(spec=dict(name="c11_noflex_i128", kb=8192,
                    args="-t ext4 -b 1024 -I 128 -O ^flex_bg -J size=1", tree="std",
@@ -126,6 +126,16 @@ def w_base(arg):
     info = {"settled": False, "indexed": False}
     try:
         zoo.build_image(b, ent["spec"], path, workdir)
+        if ent.get("many"):
+            # enough long names for a two-level htree once the directory is indexed
+            sfile = os.path.join(workdir, "many-" + name)
+            with open(sfile, "w") as f:
+                f.write("mkdir /c11many\n")
+                for k in range(ent["many"]):
+                    f.write("write /dev/null /c11many/%04d%s\n" % (k, "n" * 236))
+            r = run.run([b.tool("debugfs"), "-w", "-f", sfile, path], env=env, timeout=300)
+            if r.rc != 0:
+                return name, "debugfs population failed: %s" % r.etext[-300:], info
         ok, why = _consistent(b, env, path)
         if not ok:
             r = run.run([b.tool("e2fsck"), "-fy", path], env=env, timeout=300)
@@ -313,7 +323,7 @@ FORCED = [
     ("seed-on/uuid/seed-off", lambda i: _has(i, "metadata_csum") and not _has(i, "stable_inodes"),
      [("feat", "metadata_csum_seed", True), ("uuid",), ("feat", "metadata_csum_seed", False)]),
     ("journal-remove/add", lambda i: _has(i, "has_journal"),
-     [("feat", "has_journal", False), ("jadd",)]),
+     [("jremove",), ("jadd",)]),
     ("quota-off/on", lambda i: _has(i, "quota"),
      [("feat", "quota", False), ("feat", "quota", True)]),
     ("quota-on/off/on", lambda i: not _has(i, "quota"),
@@ -356,6 +366,11 @@ def resolve_step(step, rng, sb, mmp_ok):
         return [feat(step[1], on)]
     if k == "uuid":
         return [a_uuid(rng, sb, "fixed")]
+    if k == "jremove":
+        # the orphan file lives on the journal: drop both where both exist
+        if M.has(sb, "orphan_file"):
+            return [feat("has_journal", False), feat("orphan_file", False)]
+        return [feat("has_journal", False)]
     if k == "jadd":
         return a_jadd(rng, sb)
     if k == "isize":
@@ -492,7 +507,7 @@ class Seq:
         return False
 
     # ---- one tune2fs invocation
-    def invoke(self, atoms, retry_ok=True, is_retry=False):
+    def invoke(self, atoms, retry_ok=True, is_retry=False, core=False):
         label = M.op_label(atoms)
         argv = M.op_argv(atoms)
         B = M.read_sb(self.img)
@@ -504,7 +519,7 @@ class Seq:
                 os.unlink(os.path.join(self.dir, f))
         out = r.text + r.etext
         st = {"label": label, "argv": argv, "atoms": [M.atom_label(a) for a in atoms], "rc": r.rc,
-              "cls": None, "structural": False, "asked": None, "retry": is_retry,
+              "cls": None, "structural": False, "asked": None, "retry": is_retry, "core": core,
               "out": out[-600:]}
         self.steps.append(st)
         self.ops.append({"atoms": atoms})
@@ -537,7 +552,8 @@ class Seq:
                     self.harness.append("tree unreadable after preparatory e2fsck: %s" % e)
                     self.broken = True
                     return
-                self.invoke(atoms, retry_ok=False, is_retry=True)
+                st["core"] = False
+                self.invoke(atoms, retry_ok=False, is_retry=True, core=core)
             return
         self.accepted(st, label, atoms, B, out)
 
@@ -704,7 +720,7 @@ class Seq:
                     atoms = gen_field(rng, sb)
                 else:
                     atoms = resolve_step(step, rng, sb, d["mmp"])
-                self.invoke(atoms)
+                self.invoke(atoms, core=bool(d.get("script")) and step[0] not in ("random", "random-field"))
         if not self.broken and not self.mutated and not self.viol:
             try:
                 td = T.diff_digests(self.dig0, self.digest())
@@ -761,10 +777,14 @@ def absorb(rep, res, stats):
         rep.note_inconclusive(w)
     acc_struct = []
     for st in res["steps"]:
-        o = stats["options"].setdefault(st["label"], {"accepted": 0, "refused": 0})
+        labels = list(st["atoms"])
+        if len(labels) > 1 and all(a.startswith(("-O", "-Q")) for a in labels):
+            labels.append(st["label"])        # a combined feature request counts as an option too
+        os_ = [stats["options"].setdefault(l, {"accepted": 0, "refused": 0}) for l in labels]
         rep.count("invocations")
         if st["cls"] == "accepted":
-            o["accepted"] += 1
+            for o in os_:
+                o["accepted"] += 1
             rep.count("accepted")
             if st["structural"]:
                 acc_struct.append(st["label"])
@@ -774,7 +794,8 @@ def absorb(rep, res, stats):
             for a in st["atoms"]:
                 rep.add("accepted_atoms", a)
         elif st["cls"] in ("refused-clean", "refused-but-touched"):
-            o["refused"] += 1
+            for o in os_:
+                o["refused"] += 1
             rep.count("refused")
             rep.count(st["cls"])
             if st.get("wants_fresh_check"):
@@ -797,7 +818,8 @@ def absorb(rep, res, stats):
         key = "%s|%s" % (res["image"], ">".join(acc_struct))
     rep.case(key)
     rep.count("sequence_length_%d" % min(len(res["steps"]), 9))
-    if res["forced"] and len(acc_struct) >= 2:
+    core = [st for st in res["steps"] if st.get("core")]
+    if res["forced"] and core and all(st["cls"] == "accepted" for st in core):
         stats["forced"][res["forced"]]["core_all_accepted"] += 1
     seen = set()
     for key_v, what, stepi in res["viol"]:
